@@ -1,0 +1,56 @@
+//go:build verif
+
+package mongo
+
+import (
+	"context"
+	"fmt"
+
+	"github.com/shiningrush/fastflow/store"
+	"go.mongodb.org/mongo-driver/mongo"
+	"go.mongodb.org/mongo-driver/mongo/options"
+	"go.mongodb.org/mongo-driver/mongo/readpref"
+)
+
+// Hooks for the external verification harness (build tag "verif").
+// Add-only: nothing here is compiled into a normal build.
+
+// VerifConnect performs the connection and index part of Init without
+// starting the election and heartbeat ticker goroutines.
+func (k *Keeper) VerifConnect() error {
+	if err := k.readOpt(); err != nil {
+		return err
+	}
+	store.InitFlakeGenerator(uint16(k.WorkerNumber()))
+
+	ctx, cancel := context.WithTimeout(context.Background(), k.opt.Timeout)
+	defer cancel()
+	client, err := mongo.Connect(ctx, options.Client().ApplyURI(k.opt.ConnStr))
+	if err != nil {
+		return fmt.Errorf("connect client failed: %w", err)
+	}
+	if err = client.Ping(ctx, readpref.Primary()); err != nil {
+		return fmt.Errorf("ping client failed: %w", err)
+	}
+	k.mongoClient = client
+	k.mongoDb = k.mongoClient.Database(k.opt.Database)
+	if err := k.ensureTtlIndex(ctx, k.leaderClsName, "updatedAt", int32(k.opt.UnhealthyTime.Seconds())); err != nil {
+		return err
+	}
+	if err := k.ensureTtlIndex(ctx, k.heartbeatClsName, "updatedAt", int32(k.opt.UnhealthyTime.Seconds())); err != nil {
+		return err
+	}
+	if err := k.ensureTtlIndex(ctx, k.mutexClsName, "expiredAt", 1); err != nil {
+		return err
+	}
+	// no ticker goroutine will report to firstInitWg, so treat the start-up
+	// protocol as finished: elect/heartBeat rounds then never touch it.
+	k.initCompleted.Store(true)
+	return nil
+}
+
+// VerifElect runs one election round.
+func (k *Keeper) VerifElect() { k.elect() }
+
+// VerifHeartBeat runs one heartbeat round.
+func (k *Keeper) VerifHeartBeat() error { return k.heartBeat() }
